@@ -401,13 +401,13 @@ func deTwinHashAndPos(hnp hashAndPos, forestRows uint8) hashAndPos {
 // Verify calculates the root hashes from the passed in proof and delHashes and
 // compares it against the current roots in the pollard.
 func (p *Pollard) Verify(delHashes []Hash, proof Proof, remember bool) error {
-	if len(delHashes) == 0 {
-		return nil
-	}
-
 	if len(delHashes) != len(proof.Targets) {
 		return fmt.Errorf("Pollard.Verify fail. Was given %d targets but got %d hashes",
 			len(proof.Targets), len(delHashes))
+	}
+
+	if len(delHashes) == 0 {
+		return nil
 	}
 
 	err := checkNoEmptyHashes(delHashes, proof)
